@@ -104,6 +104,31 @@ def run(world, rep, tier, only=None):
                         extra = " (store is on %s)" % T.path(n.ev["lhs"])
                     rep.ob("C20.a", site(fn, "sets MASTER_SB_ONLY"), ok,
                            SETTERS.get(fn.key, "listed only for old_fs" if fn.file == "resize/resize2fs.c" else "NOT LISTED") + extra)
+    # the flag is set on a fresh handle only: once code that may ask for the backups to be refreshed (a callee
+    # that clears the flag: a relocated inode table, a changed feature, a recovered journal) has run on a handle,
+    # setting the flag again throws that request away - the close that follows writes the primary copies only
+    n_set = 0
+    for pn in ("e2fsck", "debugfs", "tune2fs"):
+        prog = world.program(pn)
+        mayclear = prog.may(lambda f, n: clears_master(n))
+        for fn in prog.functions():
+            sets = [n for n in fn.nodes() if sets_master(n)]
+            if not sets or fn.name == "ext2fs_open2":
+                continue
+            opens = calls_to(fn, "ext2fs_open", "ext2fs_open2", "try_open_fs")
+            askers = [c for c in fn.call_nodes()
+                      if any(g.key in mayclear for g in prog.callees(fn, c.ev["x"])) and c not in opens]
+            for i, s_ in enumerate(sets):
+                n_set += 1
+                r = fn.reach([m for a_ in askers for m in fn.after(a_)], avoid=opens)
+                wit = None
+                if s_ in r:
+                    wp = fn.witness_path([m for a_ in askers for m in fn.after(a_)], [s_], avoid=opens)
+                    wit = {"entry": fn.name, "lines": line_path(wp or [])}
+                rep.ob("C20.g", site(fn, "MASTER_SB_ONLY set on a fresh handle only#%d[%s]" % (i, pn)), s_ not in r,
+                       "no call that may clear the flag (%s) reaches `%s` (line %d) without a re-open in between" %
+                       (sorted({T.call_names(a_.ev["x"])[0] for a_ in askers if T.call_names(a_.ev["x"])})[:4], s_.text()[:40], s_.line), wit)
+    rep.floor("C20.g stores that set MASTER_SB_ONLY outside ext2fs_open2", n_set, 3)
     mk = world.program("mke2fs")
     ini = mk.fn("ext2fs_initialize")
     rep.ob("C20.a", site(ini, "a freshly initialised fs writes its backups"), not any(sets_master(n) for n in ini.nodes()),
